@@ -16,3 +16,9 @@ impl std::fmt::Debug for VErr {
 // Stated as an explicit precondition wherever it is used (listed under assumptions).
 #[allow(non_snake_case)]
 pub open spec fn HEIGHT_LIMIT() -> u64 { 0x8000_0000_0000_0000u64 }
+
+// `std::cmp::min(a, b)` / `std::cmp::max(a, b)` (core): the smaller / larger one by the type's own order
+pub assume_specification<T: Ord>[core::cmp::min::<T>](a: T, b: T) -> (r: T)
+    ensures r == a || r == b,
+        <T as vstd::std_specs::cmp::OrdSpec>::cmp_spec(&a, &b) is Greater ==> r == b,
+        !(<T as vstd::std_specs::cmp::OrdSpec>::cmp_spec(&a, &b) is Greater) ==> r == a;
